@@ -389,6 +389,7 @@ impl Prop for C11 {
             Tier::Quick => vec![
                 prof("roundtrip", 6_000),
                 prof("large", 160),
+                prof("large_random", 64),
                 prof("text", 8_000),
                 prof("mutated", 30_000),
                 prof("mirror", 10_000),
@@ -398,6 +399,7 @@ impl Prop for C11 {
             Tier::Thorough => vec![
                 prof("roundtrip", 200_000),
                 prof("large", 4_000),
+                prof("large_random", 1_500),
                 prof("text", 200_000),
                 prof("mutated", 1_500_000),
                 prof("mirror", 400_000),
@@ -421,6 +423,13 @@ impl Prop for C11 {
                     any::<u64>(),
                 )
                     .prop_map(|(templates, states, fit, seed)| Case::RoundTrip { templates, states, fit, seed })
+                    .boxed()
+            }
+            "large_random" => {
+                // every state different, random parameters: the encoding does not compress well
+                let mp = MachineParams { min_states: 200, max_states: 1500, dist: DistProfile::Wild, p_trans: [0.25; 13], ..MachineParams::default() };
+                (machine(&mp), any::<u64>())
+                    .prop_map(|(templates, seed)| Case::RoundTrip { states: templates.states.len() as u32, templates, fit: 0, seed })
                     .boxed()
             }
             "text" => prop_oneof![
@@ -522,6 +531,9 @@ impl Prop for C11 {
                     obs.hit("thousands_of_states");
                 }
                 let s = m.serialize();
+                if s.len() > 64 * 1024 {
+                    obs.hit("compressed_form_above_64KiB");
+                }
                 let parsed = match judge_v2(&s, obs, "round trip")? {
                     Some(p) => p,
                     None => {
@@ -716,6 +728,7 @@ impl Prop for C11 {
     fn required_classes() -> Vec<&'static str> {
         vec![
             "round_trip_ok",
+            "compressed_form_above_64KiB",
             "thousands_of_states",
             "just_under_the_size_limit",
             "exactly_at_the_size_limit",
